@@ -170,8 +170,12 @@ func (p *parser) alias() ast.Expression {
 			File:                 p.module.FileName,
 			WrappedGenericErrors: mostFitting.errs,
 		})
-		p.cur = start
-		return nil
+		// the call is bad, but it was a call: skip its tokens instead of parsing them (and all nested
+		// calls in the arguments) a second time as something else, which doubles the work on every level of nesting
+		err := p.lastError
+		p.skipAlias(mostFitting.alias, start)
+		err.Range = token.NewRange(&p.tokens[start], p.previous())
+		return &ast.BadExpr{Err: err, Tok: p.tokens[start]}
 	}
 
 	args, funcInstantiation, structTypeInstantiation, errs := p.checkAlias(mostFitting.alias, false, start, cached_args)
@@ -186,6 +190,38 @@ func (p *parser) alias() ast.Expression {
 	}
 
 	return callOrLiteralFromAlias(mostFitting.alias, args, funcInstantiation, structTypeInstantiation)
+}
+
+// moves p.cur behind the call of alias that begins at start
+// arguments are skipped the same way they were matched in alias()
+func (p *parser) skipAlias(alias ast.Alias, start int) {
+	p.cur = start
+	for _, tok := range alias.GetTokens() {
+		if tok.Type == token.EOF {
+			break
+		}
+		if tok.Type != token.ALIAS_PARAMETER {
+			p.advance()
+			continue
+		}
+		switch p.advance().Type {
+		case token.NEGATE:
+			p.matchAny(token.INT, token.FLOAT, token.IDENTIFIER, token.SYMBOL)
+		case token.LPAREN:
+			numLparens := 1
+			for numLparens > 0 && !p.atEnd() {
+				switch p.advance().Type {
+				case token.LPAREN:
+					numLparens++
+				case token.RPAREN:
+					numLparens--
+				}
+			}
+		}
+	}
+	if p.cur == start { // can not happen for a matched alias, but the parser must make progress
+		p.advance()
+	}
 }
 
 // sorts aliases by
